@@ -1,7 +1,8 @@
 """C07.R1 / C08.R6: panic-site audit.
 
 Every explicit panic site (panic!/unreachable!/unimplemented!/todo!/assert!, Option/Result
-unwrap/expect, Index::index on Vec/slice/HashMap/VecDeque) and every implicit one (the bounds check
+unwrap/expect, Index::index on Vec/slice/HashMap/VecDeque, debug_assert! - the dev profile is what
+`cargo build` and `cargo test` produce) and every implicit one (the bounds check
 of a slice / array index expression, the zero check of an integer division or remainder - rustc's
 assert terminators; J1 for these is a proof by rbv.bounds that the asserted comparison follows from
 the comparisons dominating the site) in a body reachable from the entry
@@ -14,7 +15,7 @@ import json
 import os
 import re
 
-from .. import bounds, mir
+from .. import bounds, mir, pcnull
 from ..core import CheckError, VERIF
 from . import common
 
@@ -58,6 +59,10 @@ def sites_of(prog, fn):
     for b, t in fn.body.calls():
         mx = t.get("mx", [])
         if any("debug_assert" in m for m in mx):
+            # panics in the dev profile (the one `cargo build` / `cargo test` produce)
+            if mir.is_panic_call(t):
+                msg = mir.panic_message(fn.body, t)
+                out.append(("debug_assert", _short(msg) if msg else "", t.get("ln"), b))
             continue
         cp = t.get("cpath") or ""
         name = cp.split("::")[-1]
@@ -150,6 +155,31 @@ def discharged_locally(prog, fn, b, kind):
     return None
 
 
+def witness_holds(prog, w):
+    """re-check one machine-checkable part of an audited invariant (tables/panic_witnesses.json)."""
+    if w["kind"] != "parser_mandatory":
+        raise CheckError("unknown witness kind %s" % w["kind"])
+    root = prog.fn_opt(w["fn"])
+    if root is None:
+        raise CheckError("witness anchor %s not found" % w["fn"])
+    tys = []
+    for f in prog.closures_of(root):
+        tys.append((f.id, f.body.locals[0]["ty"]))
+    for _b, t in root.body.calls():
+        for a in t["args"]:
+            pl = mir.op_place(a)
+            if pl is not None and not mir.place_proj(pl):
+                tys.append((root.id, root.body.locals[mir.place_local(pl)]["ty"]))
+    tys = [(o, ty) for o, ty in tys if "rusty_pc::" in ty or "pc_specific::" in ty]
+    if not tys:
+        raise CheckError("witness %s: no parser value found to judge" % w["fn"])
+    for o, ty in tys:
+        if pcnull.provably_optional(ty):
+            w["_why"] = "%s builds an optional parser (%s...)" % (o, pcnull.head_chain(ty))
+            return False
+    return True
+
+
 def r_audit(ctx, rule, scope):
     prog = ctx.prog
     path = os.path.join(VERIF, "tables", "panic_baseline.json")
@@ -158,6 +188,10 @@ def r_audit(ctx, rule, scope):
     audited = base.get("audited", {})
     baseline = set(base.get("unaudited", []))
     sites, n_fns = enumerate_sites(prog, scope)
+    witnesses = json.load(open(os.path.join(VERIF, "tables", "panic_witnesses.json"))).get(scope, {})
+    for k in witnesses:
+        if k not in sites:
+            raise CheckError("%s: witnessed panic site %s is no longer enumerated" % (rule, k))
     counts = {"J1": 0, "J2": 0, "U": 0, "new": 0}
     for key in sorted(sites):
         fn, line, b, kind = sites[key]
@@ -168,8 +202,18 @@ def r_audit(ctx, rule, scope):
             counts["J1"] += 1
             ctx.ok(rule, okey, loc, "J1: " + j1)
         elif key in audited:
+            broken = [w for w in witnesses.get(key, []) if not witness_holds(prog, w)]
+            if broken:
+                counts["new"] += 1
+                w = broken[0]
+                ctx.violation(rule, okey, loc,
+                              "the audited invariant that keeps this panic site unreachable no longer holds: %s "
+                              "- %s; the %s now aborts here instead of returning a located error"
+                              % (w["claim"], w["_why"], scope), {"function": fn.path, "witness": w["fn"]})
+                continue
             counts["J2"] += 1
-            ctx.ok(rule, okey, loc, "J2: " + audited[key])
+            n_w = len(witnesses.get(key, []))
+            ctx.ok(rule, okey, loc, "J2: " + audited[key] + (" [%d witness(es) re-checked]" % n_w if n_w else ""))
         elif key in baseline:
             counts["U"] += 1
             ctx.ok(rule, okey, loc, "U: unaudited baseline (accepted risk)")
